@@ -134,7 +134,16 @@ impl ScriptActor {
                         cmds.push(Cm::Set(k, lo, hi));
                     }
                 }
-                7 => cmds.push(Cm::Cancel(r.below(3) as u8)),
+                7 => {
+                    // half of the time "re-arm, then step down" in ONE handler: afterwards the timer is NOT armed,
+                    // whatever was armed before
+                    let k = r.below(3) as u8;
+                    if r.below(2) == 0 && count < 15 {
+                        let lo = (20 + r.below(100)) as u64 * 1_000_000;
+                        cmds.push(Cm::Set(k, lo, lo));
+                    }
+                    cmds.push(Cm::Cancel(k));
+                }
                 8 => {
                     let nv = r.below(4);
                     let vals: Vec<u8> = (0..nv).map(|_| r.below(5) as u8).collect();
